@@ -170,6 +170,15 @@ theorem eval_pp_sim (pk : PureOk xc) (fuel : Nat) (e : X.Expr) (σ : X.St) (v : 
     rfl
   exact (((pure_all xc pk fuel).1 (keys σ.locals) e (pp_imp xc ps hps _ hL e hp)) σ rfl).1 v σ' hev
 
+/-- ... and does not stop the program. -/
+theorem eval_pp_noexit (pk : PureOk xc) (fuel : Nat) (e : X.Expr) (σ : X.St) (cd : Word) (σ' : X.St)
+    (hp : ppE ps xc.impure e = true) (hn : NoLoc ps σ) : X.eval fuel xc e σ ≠ .exit cd σ' := by
+  have hL : ∀ g, ps.contains g = true → (keys σ.locals).contains g = false := by
+    intro g hg
+    rw [← lookup_isSome_keys, hn g hg]
+    rfl
+  exact (((pure_all xc pk fuel).1 (keys σ.locals) e (pp_imp xc ps hps _ hL e hp)) σ rfl).2 cd σ'
+
 end
 
 /-! ### The expression theorem -/
